@@ -43,29 +43,29 @@ type c11Spec struct {
 }
 
 type c11Result struct {
-	ID            string           `json:"id"`
-	C2S           int              `json:"c2s"` // messages carried client -> server (as received by the backend)
-	S2C           int              `json:"s2c"` // messages carried server -> client (as decoded from polls)
-	Bytes         int64            `json:"bytes"`
-	Posts         int              `json:"posts"`
-	MaxPost       int              `json:"max_post"`
-	PostsOver10   int              `json:"posts_over10"`
-	SpanningPosts int              `json:"spanning_posts"`
-	Polls         int              `json:"polls"`
-	MaxPollBatch  int              `json:"max_poll_batch"`
-	PollsOver10   int              `json:"polls_over10"`
-	Bursts        int              `json:"bursts"`
-	MaxBurst      int              `json:"max_burst"`
-	PollShape     string           `json:"poll_shape"`
-	SizeClasses   map[string]int   `json:"size_classes"`
-	JSONClasses   map[string]int   `json:"json_classes,omitempty"`
-	Injected      int              `json:"injected"`   // messages legitimately changed by injection
-	KeysAdded     int              `json:"keys_added"` // header keys added by injection
-	Unchanged     int              `json:"unchanged"`  // messages required to be byte-identical and found so
-	Violations    []string         `json:"violations,omitempty"`
-	Timeout       bool             `json:"timeout"` // a harness wait expired (to be confirmed by a solo re-run)
-	Panic         string           `json:"panic,omitempty"`
-	Ms            int64            `json:"ms"`
+	ID            string            `json:"id"`
+	C2S           int               `json:"c2s"` // messages carried client -> server (as received by the backend)
+	S2C           int               `json:"s2c"` // messages carried server -> client (as decoded from polls)
+	Bytes         int64             `json:"bytes"`
+	Posts         int               `json:"posts"`
+	MaxPost       int               `json:"max_post"`
+	PostsOver10   int               `json:"posts_over10"`
+	SpanningPosts int               `json:"spanning_posts"`
+	Polls         int               `json:"polls"`
+	MaxPollBatch  int               `json:"max_poll_batch"`
+	PollsOver10   int               `json:"polls_over10"`
+	Bursts        int               `json:"bursts"`
+	MaxBurst      int               `json:"max_burst"`
+	PollShape     string            `json:"poll_shape"`
+	SizeClasses   map[string]int    `json:"size_classes"`
+	JSONClasses   map[string]int    `json:"json_classes,omitempty"`
+	Injected      int               `json:"injected"`   // messages legitimately changed by injection
+	KeysAdded     int               `json:"keys_added"` // header keys added by injection
+	Unchanged     int               `json:"unchanged"`  // messages required to be byte-identical and found so
+	Violations    []string          `json:"violations,omitempty"`
+	Timeout       bool              `json:"timeout"` // a harness wait expired (to be confirmed by a solo re-run)
+	Panic         string            `json:"panic,omitempty"`
+	Ms            int64             `json:"ms"`
 	Detail        map[string]string `json:"detail,omitempty"`
 }
 
